@@ -1,1 +1,517 @@
-//! C05 harnesses (not written yet).
+//! C05 — shifts are logical, length-preserving and zero-fill for every shift amount.
+//!
+//! Oracle on the model value `(n, v)` and the amount `k` widened to u128 (so that amounts
+//! above usize::MAX are first-class):
+//!   a << k : k >= n -> 0, else (v << k) mod 2^n        a >> k : k >= n -> 0, else v >> k
+//! compared with the *raw storage* of the result (padding bits and spare words included),
+//! length unchanged. The Bvf harnesses additionally assert the statement's own wording for
+//! a symbolic index i ("bit i of the result is a's bit i-k resp. i+k when that index lies
+//! in 0..n and zero otherwise").
+//!   shl_in(b): n = 0 -> returns b, nothing changes; else returns bit n-1, value becomes
+//!              ((v << 1) | b) mod 2^n.      shr_in(b): returns bit 0, value (v >> 1) | b << (n-1).
+use crate::big::Big;
+use crate::nd;
+use crate::scopes::*;
+use bva::{Bit, BitVector, Bv, Bvd, Bvf};
+
+#[inline(always)]
+fn shl_model(v: Big, n: usize, k: u128) -> Big {
+    if k >= n as u128 {
+        Big::ZERO
+    } else {
+        v.shl(k as usize).trunc(n)
+    }
+}
+
+#[inline(always)]
+fn shr_model(v: Big, n: usize, k: u128) -> Big {
+    if k >= n as u128 {
+        Big::ZERO
+    } else {
+        v.shr(k as usize)
+    }
+}
+
+/// Witnesses. `multi`: scope with >= 2 words of `$B` bits and symbolic length; `hi`: the
+/// same restricted to lengths that use every word (no spare word possible); `single`:
+/// one-word scope; `lat`: concrete length (lattice harnesses), where the corner named must
+/// exist for that particular length or the witness degenerates.
+macro_rules! shift_wit {
+    (hi, $B:literal, $T:ident, $n:ident, $k:ident, $kk:ident, $v:ident, $cap:expr) => {
+        w!($kk == 0 && !$v.is_zero(), "k = 0 on a non-zero vector");
+        w!($n > $B && $kk > 0 && $kk < $n as u128 && $kk % $B == 0 && $v.bit(0) && $v.bit($n - 1),
+           "k a non-zero multiple of the word size below n, both end bits set");
+        w!($n > $B && $n % $B == 0 && $kk == $n as u128 - 1 && $v.bit(0) && $v.bit($n - 1),
+           "len a multiple of the word size, k = n - 1, both end bits set");
+        w!($n > 0 && $kk == $n as u128 && !$v.is_zero(), "k = n on a non-zero vector");
+        w!($n > $B && $n % $B == 0 && $kk == $n as u128 + 1 && $v.bit($n - 1), "len a multiple of the word size, k = n + 1");
+        w!($k == <$T>::MAX && !$v.is_zero(), "k = maximum of its type (u128: far above usize::MAX)");
+    };
+    (multi, $B:literal, $T:ident, $n:ident, $k:ident, $kk:ident, $v:ident, $cap:expr) => {
+        shift_wit!(hi, $B, $T, $n, $k, $kk, $v, $cap);
+        w!($cap >= $n + $B && $kk > 0 && $kk < $n as u128 && $v.bit(0) && $v.bit($n - 1),
+           "proper shift on a vector with a spare storage word, both end bits set");
+    };
+    (single, $B:literal, $T:ident, $n:ident, $k:ident, $kk:ident, $v:ident, $cap:expr) => {
+        w!($kk == 0 && !$v.is_zero(), "k = 0 on a non-zero vector");
+        w!($n == $B && $kk == $n as u128 - 1 && $v.bit(0) && $v.bit($n - 1), "len exactly the word size, k = n - 1, both end bits set");
+        w!($n > 0 && $kk == $n as u128 && !$v.is_zero(), "k = n on a non-zero vector");
+        w!($n == $B && $kk == $n as u128 + 1 && $v.bit($n - 1), "len exactly the word size, k = n + 1");
+        w!($k == <$T>::MAX && !$v.is_zero(), "k = maximum of its type (u128: far above usize::MAX)");
+    };
+    (lat, $B:literal, $T:ident, $n:ident, $k:ident, $kk:ident, $v:ident, $cap:expr) => {
+        w!($kk == $n as u128 && ($n == 0 || $v.bit($n - 1)), "k = n, top bit set unless empty");
+        w!($n < 2 || ($kk == $n as u128 - 1 && $v.bit(0) && $v.bit($n - 1)), "k = n - 1, both end bits set (len >= 2)");
+        w!($n <= $B || ($kk == $B && $v.bit(0) && $v.bit($n - 1)), "k = word size, both end bits set (len > word size)");
+        w!($k == <$T>::MAX && ($n == 0 || !$v.is_zero()), "k = maximum of its type (u128: far above usize::MAX)");
+    };
+}
+
+/// Symbolic length in `lo..=hi`.
+#[inline(always)]
+fn lenin(lo: usize, hi: usize) -> usize {
+    let l = nd::upto(hi);
+    nd::assume(l >= lo);
+    l
+}
+
+/// Apply one shift to a `Bvf` (`Copy`): `assign` = the implementing `op=` form; `others` =
+/// symbolic choice among the five wrapper forms.
+macro_rules! shift_apply {
+    (assign, $a:ident, $k:ident, $op:tt, $opa:tt) => {{
+        let mut b = $a;
+        b $opa $k;
+        b
+    }};
+    (others, $a:ident, $k:ident, $op:tt, $opa:tt) => {{
+        let form = nd::upto(4);
+        if form == 0 {
+            $a $op $k
+        } else if form == 1 {
+            $a $op &$k
+        } else if form == 2 {
+            (&$a) $op $k
+        } else if form == 3 {
+            (&$a) $op (&$k)
+        } else {
+            let mut b = $a;
+            b $opa &$k;
+            b
+        }
+    }};
+}
+
+/// `Bvf` subject (nothing allocates): one direction, one amount type, the form set `$forms`.
+macro_rules! h_shift_f {
+    ($name:ident, $unw:literal, $a:expr, $T:ident, $kind:ident, $B:literal, $model:ident, $left:literal, $forms:ident, $op:tt, $opa:tt) => {
+        harness!($name, $unw, {
+            let (a, ra) = $a;
+            let n = ra.len;
+            let v = ra.v;
+            let k: $T = nd::$T();
+            let kk = k as u128;
+            shift_wit!($kind, $B, $T, n, k, kk, v, ra.cap);
+            let res = shift_apply!($forms, a, k, $op, $opa);
+            let r = res.into_raw();
+            assert!(r.len == n, "C05: shift changed the length");
+            assert!(r.v == $model(v, n, kk), "C05: storage after shift != logical shift of the value within len");
+            assert!(a.into_raw() == ra, "C05: operand of a by-reference shift modified");
+            // the statement, literally
+            if n > 0 {
+                let i = nd::upto(n - 1);
+                let src = if $left {
+                    kk <= i as u128 && v.bit(i - k as usize)
+                } else {
+                    kk < (n - i) as u128 && v.bit(i + k as usize)
+                };
+                assert!(r.v.bit(i) == src, "C05: result bit i != source bit i-k / i+k (zero when outside 0..n)");
+            }
+        });
+    };
+}
+macro_rules! h_shl_f {
+    ($name:ident, $unw:literal, $a:expr, $T:ident, $kind:ident, $B:literal, $forms:ident) => {
+        h_shift_f!($name, $unw, $a, $T, $kind, $B, shl_model, true, $forms, <<, <<=);
+    };
+}
+macro_rules! h_shr_f {
+    ($name:ident, $unw:literal, $a:expr, $T:ident, $kind:ident, $B:literal, $forms:ident) => {
+        h_shift_f!($name, $unw, $a, $T, $kind, $B, shr_model, false, $forms, >>, >>=);
+    };
+}
+
+/// Heap-backed subject, owning forms (`a <<= k`, `a << k`, ... by value): one operator, one
+/// form, one amount type per harness. `$body` uses the identifiers given as `$a`, `$k` and
+/// evaluates to the resulting vector.
+macro_rules! h_shift_own {
+    ($name:ident, $unw:literal, $gen:expr, $T:ident, $model:ident, $kind:ident, $a:ident, $k:ident, $body:expr) => {
+        harness!($name, $unw, {
+            let (mut $a, ra) = $gen;
+            let n = ra.len;
+            let v = ra.v;
+            let $k: $T = nd::$T();
+            let kk = $k as u128;
+            shift_wit!($kind, 64, $T, n, $k, kk, v, ra.cap);
+            let r = ($body).into_raw();
+            assert!(r.len == n, "C05: shift changed the length");
+            assert!(r.v == $model(v, n, kk), "C05: storage after shift != logical shift of the value within len");
+            assert!(r.len <= r.cap, "C05: len > capacity");
+        });
+    };
+}
+
+/// Heap-backed subject, by-reference forms (`&a << k`: for `Bvd` a separate implementation
+/// that allocates by length): the operand must be untouched.
+macro_rules! h_shift_ref {
+    ($name:ident, $unw:literal, $gen:expr, $T:ident, $model:ident, $kind:ident, $a:ident, $k:ident, $body:expr) => {
+        harness!($name, $unw, {
+            let ($a, ra) = $gen;
+            let n = ra.len;
+            let v = ra.v;
+            let $k: $T = nd::$T();
+            let kk = $k as u128;
+            shift_wit!($kind, 64, $T, n, $k, kk, v, ra.cap);
+            let r = ($body).into_raw();
+            assert!(r.len == n, "C05: shift changed the length");
+            assert!(r.v == $model(v, n, kk), "C05: storage after shift != logical shift of the value within len");
+            assert!(r.len <= r.cap, "C05: len > capacity");
+            assert!($a.into_raw() == ra, "C05: operand of a by-reference shift modified");
+        });
+    };
+}
+
+/// shl_in / shr_in on a `Bvf` (symbolic choice between the two).
+macro_rules! h_shin_f {
+    ($name:ident, $unw:literal, $a:expr) => {
+        harness!($name, $unw, {
+            let (mut a, ra) = $a;
+            let n = ra.len;
+            let v = ra.v;
+            let b = nd::bool();
+            let bit = if b { Bit::One } else { Bit::Zero };
+            let left = nd::bool();
+            w!(n == 0 && b, "empty vector, bit one supplied");
+            w!(n > 0 && n == ra.cap && b && !v.bit(n - 1) && !v.bit(0), "full capacity, one shifted in, zero falls off");
+            w!(n > 1 && n < ra.cap && !b && v.bit(n - 1) && v.bit(0), "partial, zero shifted in, one falls off");
+            w!(n == 1, "single bit");
+            let (out, want, want_out) = if left {
+                let o = a.shl_in(bit);
+                if n == 0 {
+                    (o, v, b)
+                } else {
+                    (o, v.shl(1).or(Big::lo(b as u128)).trunc(n), v.bit(n - 1))
+                }
+            } else {
+                let o = a.shr_in(bit);
+                if n == 0 {
+                    (o, v, b)
+                } else {
+                    (o, v.shr(1).or(Big::lo(b as u128).shl(n - 1)), v.bit(0))
+                }
+            };
+            let r = a.into_raw();
+            assert!(r.len == n, "C05: shl_in/shr_in changed the length");
+            assert!(r.v == want, "C05: storage after shl_in/shr_in != one-position shift with the supplied bit entering");
+            assert!((out == Bit::One) == want_out, "C05: shl_in/shr_in did not return the bit that fell off (the supplied bit when empty)");
+        });
+    };
+}
+
+/// shl_in on a heap-backed subject.
+macro_rules! h_shlin_d {
+    ($name:ident, $unw:literal, $a:expr) => {
+        harness!($name, $unw, {
+            let (mut a, ra) = $a;
+            let n = ra.len;
+            let v = ra.v;
+            let b = nd::bool();
+            let bit = if b { Bit::One } else { Bit::Zero };
+            w!(n == 0 && b, "empty vector, bit one supplied");
+            w!(n > 0 && n % 64 == 0 && b && !v.bit(n - 1), "len a multiple of the word size, one shifted in, zero falls off");
+            w!(n % 64 != 0 && !b && v.bit(n - 1), "partial top word, zero shifted in, one falls off");
+            let out = a.shl_in(bit);
+            let r = a.into_raw();
+            let (want, want_out) = if n == 0 { (v, b) } else { (v.shl(1).or(Big::lo(b as u128)).trunc(n), v.bit(n - 1)) };
+            assert!(r.len == n, "C05: shl_in changed the length");
+            assert!(r.v == want, "C05: storage after shl_in != ((v << 1) | bit) mod 2^len");
+            assert!((out == Bit::One) == want_out, "C05: shl_in did not return the bit that fell off (the supplied bit when empty)");
+        });
+    };
+}
+
+macro_rules! h_shrin_d {
+    ($name:ident, $unw:literal, $a:expr) => {
+        harness!($name, $unw, {
+            let (mut a, ra) = $a;
+            let n = ra.len;
+            let v = ra.v;
+            let b = nd::bool();
+            let bit = if b { Bit::One } else { Bit::Zero };
+            w!(n == 0 && b, "empty vector, bit one supplied");
+            w!(n > 0 && n % 64 == 0 && b && !v.bit(0), "len a multiple of the word size, one shifted in, zero falls off");
+            w!(n % 64 != 0 && !b && v.bit(0), "partial top word, zero shifted in, one falls off");
+            let out = a.shr_in(bit);
+            let r = a.into_raw();
+            let (want, want_out) = if n == 0 { (v, b) } else { (v.shr(1).or(Big::lo(b as u128).shl(n - 1)), v.bit(0)) };
+            assert!(r.len == n, "C05: shr_in changed the length");
+            assert!(r.v == want, "C05: storage after shr_in != (v >> 1) | bit << (len-1)");
+            assert!((out == Bit::One) == want_out, "C05: shr_in did not return the bit that fell off (the supplied bit when empty)");
+        });
+    };
+}
+
+// ---- Bvf subjects: the implementing `<<=` / `>>=` for every amount type ... ------------------
+h_shl_f!(c05_q_shl_f8x2_u8, 6, f8x2(anylen(16)), u8, multi, 8, assign);
+h_shr_f!(c05_q_shr_f8x2_u8, 6, f8x2(anylen(16)), u8, multi, 8, assign);
+h_shl_f!(c05_q_shl_f8x2_u16, 6, f8x2(anylen(16)), u16, multi, 8, assign);
+h_shr_f!(c05_q_shr_f8x2_u16, 6, f8x2(anylen(16)), u16, multi, 8, assign);
+h_shl_f!(c05_q_shl_f8x2_u32, 6, f8x2(anylen(16)), u32, multi, 8, assign);
+h_shr_f!(c05_q_shr_f8x2_u32, 6, f8x2(anylen(16)), u32, multi, 8, assign);
+h_shl_f!(c05_q_shl_f8x2_u64, 6, f8x2(anylen(16)), u64, multi, 8, assign);
+h_shr_f!(c05_q_shr_f8x2_u64, 6, f8x2(anylen(16)), u64, multi, 8, assign);
+h_shl_f!(c05_q_shl_f8x2_u128, 6, f8x2(anylen(16)), u128, multi, 8, assign);
+h_shr_f!(c05_q_shr_f8x2_u128, 6, f8x2(anylen(16)), u128, multi, 8, assign);
+h_shl_f!(c05_q_shl_f8x2_usize, 6, f8x2(anylen(16)), usize, multi, 8, assign);
+h_shr_f!(c05_q_shr_f8x2_usize, 6, f8x2(anylen(16)), usize, multi, 8, assign);
+// ... and the five wrapper forms (a op k, a op &k, &a op k, &a op &k, a op= &k), every amount type
+h_shl_f!(c05_q_shlw_f8x2_u8, 6, f8x2(anylen(16)), u8, multi, 8, others);
+h_shr_f!(c05_q_shrw_f8x2_u8, 6, f8x2(anylen(16)), u8, multi, 8, others);
+h_shl_f!(c05_q_shlw_f8x2_u16, 6, f8x2(anylen(16)), u16, multi, 8, others);
+h_shr_f!(c05_q_shrw_f8x2_u16, 6, f8x2(anylen(16)), u16, multi, 8, others);
+h_shl_f!(c05_q_shlw_f8x2_u32, 6, f8x2(anylen(16)), u32, multi, 8, others);
+h_shr_f!(c05_q_shrw_f8x2_u32, 6, f8x2(anylen(16)), u32, multi, 8, others);
+h_shl_f!(c05_q_shlw_f8x2_u64, 6, f8x2(anylen(16)), u64, multi, 8, others);
+h_shr_f!(c05_q_shrw_f8x2_u64, 6, f8x2(anylen(16)), u64, multi, 8, others);
+h_shl_f!(c05_q_shlw_f8x2_u128, 6, f8x2(anylen(16)), u128, multi, 8, others);
+h_shr_f!(c05_q_shrw_f8x2_u128, 6, f8x2(anylen(16)), u128, multi, 8, others);
+h_shl_f!(c05_q_shlw_f8x2_usize, 6, f8x2(anylen(16)), usize, multi, 8, others);
+h_shr_f!(c05_q_shrw_f8x2_usize, 6, f8x2(anylen(16)), usize, multi, 8, others);
+// other word types / word counts: two amount types in quick, the other four in thorough
+h_shl_f!(c05_t_shl_f8x3_u8, 8, f8x3(anylen(24)), u8, multi, 8, assign);
+h_shr_f!(c05_t_shr_f8x3_u8, 8, f8x3(anylen(24)), u8, multi, 8, assign);
+h_shl_f!(c05_q_shl_f8x3_u16, 8, f8x3(anylen(24)), u16, multi, 8, assign);
+h_shr_f!(c05_q_shr_f8x3_u16, 8, f8x3(anylen(24)), u16, multi, 8, assign);
+h_shl_f!(c05_t_shl_f8x3_u32, 8, f8x3(anylen(24)), u32, multi, 8, assign);
+h_shr_f!(c05_t_shr_f8x3_u32, 8, f8x3(anylen(24)), u32, multi, 8, assign);
+h_shl_f!(c05_q_shl_f8x3_u64, 8, f8x3(anylen(24)), u64, multi, 8, assign);
+h_shr_f!(c05_q_shr_f8x3_u64, 8, f8x3(anylen(24)), u64, multi, 8, assign);
+h_shl_f!(c05_t_shl_f8x3_u128, 8, f8x3(anylen(24)), u128, multi, 8, assign);
+h_shr_f!(c05_t_shr_f8x3_u128, 8, f8x3(anylen(24)), u128, multi, 8, assign);
+h_shl_f!(c05_t_shl_f8x3_usize, 8, f8x3(anylen(24)), usize, multi, 8, assign);
+h_shr_f!(c05_t_shr_f8x3_usize, 8, f8x3(anylen(24)), usize, multi, 8, assign);
+h_shl_f!(c05_t_shl_f16x2_u8, 6, f16x2(anylen(32)), u8, multi, 16, assign);
+h_shr_f!(c05_t_shr_f16x2_u8, 6, f16x2(anylen(32)), u8, multi, 16, assign);
+h_shl_f!(c05_t_shl_f16x2_u16, 6, f16x2(anylen(32)), u16, multi, 16, assign);
+h_shr_f!(c05_t_shr_f16x2_u16, 6, f16x2(anylen(32)), u16, multi, 16, assign);
+h_shl_f!(c05_q_shl_f16x2_u32, 6, f16x2(anylen(32)), u32, multi, 16, assign);
+h_shr_f!(c05_q_shr_f16x2_u32, 6, f16x2(anylen(32)), u32, multi, 16, assign);
+h_shl_f!(c05_t_shl_f16x2_u64, 6, f16x2(anylen(32)), u64, multi, 16, assign);
+h_shr_f!(c05_t_shr_f16x2_u64, 6, f16x2(anylen(32)), u64, multi, 16, assign);
+h_shl_f!(c05_t_shl_f16x2_u128, 6, f16x2(anylen(32)), u128, multi, 16, assign);
+h_shr_f!(c05_t_shr_f16x2_u128, 6, f16x2(anylen(32)), u128, multi, 16, assign);
+h_shl_f!(c05_q_shl_f16x2_usize, 6, f16x2(anylen(32)), usize, multi, 16, assign);
+h_shr_f!(c05_q_shr_f16x2_usize, 6, f16x2(anylen(32)), usize, multi, 16, assign);
+h_shl_f!(c05_q_shl_f64x2_u8, 6, f64x2(anylen(128)), u8, multi, 64, assign);
+h_shr_f!(c05_q_shr_f64x2_u8, 6, f64x2(anylen(128)), u8, multi, 64, assign);
+h_shl_f!(c05_t_shl_f64x2_u16, 6, f64x2(anylen(128)), u16, multi, 64, assign);
+h_shr_f!(c05_t_shr_f64x2_u16, 6, f64x2(anylen(128)), u16, multi, 64, assign);
+h_shl_f!(c05_t_shl_f64x2_u32, 6, f64x2(anylen(128)), u32, multi, 64, assign);
+h_shr_f!(c05_t_shr_f64x2_u32, 6, f64x2(anylen(128)), u32, multi, 64, assign);
+h_shl_f!(c05_t_shl_f64x2_u64, 6, f64x2(anylen(128)), u64, multi, 64, assign);
+h_shr_f!(c05_t_shr_f64x2_u64, 6, f64x2(anylen(128)), u64, multi, 64, assign);
+h_shl_f!(c05_q_shl_f64x2_u128, 6, f64x2(anylen(128)), u128, multi, 64, assign);
+h_shr_f!(c05_q_shr_f64x2_u128, 6, f64x2(anylen(128)), u128, multi, 64, assign);
+h_shl_f!(c05_t_shl_f64x2_usize, 6, f64x2(anylen(128)), usize, multi, 64, assign);
+h_shr_f!(c05_t_shr_f64x2_usize, 6, f64x2(anylen(128)), usize, multi, 64, assign);
+h_shl_f!(c05_q_shl_f64x1_u64, 4, f64x1(anylen(64)), u64, single, 64, assign);
+h_shr_f!(c05_q_shr_f64x1_usize, 4, f64x1(anylen(64)), usize, single, 64, assign);
+h_shl_f!(c05_t_shlw_f64x2_u128, 6, f64x2(anylen(128)), u128, multi, 64, others);
+h_shr_f!(c05_t_shrw_f64x2_u64, 6, f64x2(anylen(128)), u64, multi, 64, others);
+h_shl_f!(c05_t_shlw_f8x3_u8, 8, f8x3(anylen(24)), u8, multi, 8, others);
+h_shr_f!(c05_t_shrw_f16x2_u16, 6, f16x2(anylen(32)), u16, multi, 16, others);
+h_shl_f!(c05_t_shl_f8x1_u8, 4, f8x1(anylen(8)), u8, single, 8, assign);
+h_shr_f!(c05_t_shr_f8x1_u8, 4, f8x1(anylen(8)), u8, single, 8, assign);
+h_shl_f!(c05_t_shl_f8x4_u32, 10, f8x4(anylen(32)), u32, multi, 8, assign);
+h_shr_f!(c05_t_shr_f8x4_u32, 10, f8x4(anylen(32)), u32, multi, 8, assign);
+h_shl_f!(c05_t_shl_f32x2_u16, 6, f32x2(anylen(64)), u16, multi, 32, assign);
+h_shr_f!(c05_t_shr_f32x2_u16, 6, f32x2(anylen(64)), u16, multi, 32, assign);
+h_shl_f!(c05_t_shl_fuszx2_usize, 6, fuszx2(anylen(128)), usize, multi, 64, assign);
+h_shr_f!(c05_t_shr_fuszx2_usize, 6, fuszx2(anylen(128)), usize, multi, 64, assign);
+h_shl_f!(c05_t_shl_f64x3_u64, 8, f64x3(anylen(192)), u64, multi, 64, assign);
+h_shr_f!(c05_t_shr_f64x3_u64, 8, f64x3(anylen(192)), u64, multi, 64, assign);
+h_shl_f!(c05_t_shl_f128x2_u128, 6, f128x2(anylen(256)), u128, multi, 128, assign);
+h_shr_f!(c05_t_shr_f128x2_u128, 6, f128x2(anylen(256)), u128, multi, 128, assign);
+h_shl_f!(c05_t_shl_f128x2_u16, 6, f128x2(anylen(256)), u16, multi, 128, assign);
+h_shr_f!(c05_t_shr_f128x2_u16, 6, f128x2(anylen(256)), u16, multi, 128, assign);
+
+// ---- Bvd, in-place `<<=` / `>>=`: 2 allocated words (spare word whenever len <= 64), every amount type
+h_shift_own!(c05_q_shl_bvd2_u8, 6, bvd2(anylen(128)), u8, shl_model, multi, a, k, { a <<= k; a });
+h_shift_own!(c05_q_shr_bvd2_u8, 6, bvd2(anylen(128)), u8, shr_model, multi, a, k, { a >>= k; a });
+h_shift_own!(c05_q_shl_bvd2_u16, 6, bvd2(anylen(128)), u16, shl_model, multi, a, k, { a <<= k; a });
+h_shift_own!(c05_q_shr_bvd2_u16, 6, bvd2(anylen(128)), u16, shr_model, multi, a, k, { a >>= k; a });
+h_shift_own!(c05_q_shl_bvd2_u32, 6, bvd2(anylen(128)), u32, shl_model, multi, a, k, { a <<= k; a });
+h_shift_own!(c05_q_shr_bvd2_u32, 6, bvd2(anylen(128)), u32, shr_model, multi, a, k, { a >>= k; a });
+h_shift_own!(c05_q_shl_bvd2_u64, 6, bvd2(anylen(128)), u64, shl_model, multi, a, k, { a <<= k; a });
+h_shift_own!(c05_q_shr_bvd2_u64, 6, bvd2(anylen(128)), u64, shr_model, multi, a, k, { a >>= k; a });
+h_shift_own!(c05_q_shl_bvd2_u128, 6, bvd2(anylen(128)), u128, shl_model, multi, a, k, { a <<= k; a });
+h_shift_own!(c05_q_shr_bvd2_u128, 6, bvd2(anylen(128)), u128, shr_model, multi, a, k, { a >>= k; a });
+h_shift_own!(c05_q_shl_bvd2_usize, 6, bvd2(anylen(128)), usize, shl_model, multi, a, k, { a <<= k; a });
+h_shift_own!(c05_q_shr_bvd2_usize, 6, bvd2(anylen(128)), usize, shr_model, multi, a, k, { a >>= k; a });
+// 1 and 3 allocated words
+h_shift_own!(c05_t_shl_bvd1_u8, 4, bvd1(anylen(64)), u8, shl_model, single, a, k, { a <<= k; a });
+h_shift_own!(c05_t_shr_bvd1_u8, 4, bvd1(anylen(64)), u8, shr_model, single, a, k, { a >>= k; a });
+h_shift_own!(c05_q_shl_bvd1_u16, 4, bvd1(anylen(64)), u16, shl_model, single, a, k, { a <<= k; a });
+h_shift_own!(c05_t_shr_bvd1_u16, 4, bvd1(anylen(64)), u16, shr_model, single, a, k, { a >>= k; a });
+h_shift_own!(c05_t_shl_bvd1_u32, 4, bvd1(anylen(64)), u32, shl_model, single, a, k, { a <<= k; a });
+h_shift_own!(c05_t_shr_bvd1_u32, 4, bvd1(anylen(64)), u32, shr_model, single, a, k, { a >>= k; a });
+h_shift_own!(c05_t_shl_bvd1_u64, 4, bvd1(anylen(64)), u64, shl_model, single, a, k, { a <<= k; a });
+h_shift_own!(c05_q_shr_bvd1_u64, 4, bvd1(anylen(64)), u64, shr_model, single, a, k, { a >>= k; a });
+h_shift_own!(c05_t_shl_bvd1_u128, 4, bvd1(anylen(64)), u128, shl_model, single, a, k, { a <<= k; a });
+h_shift_own!(c05_t_shr_bvd1_u128, 4, bvd1(anylen(64)), u128, shr_model, single, a, k, { a >>= k; a });
+h_shift_own!(c05_t_shl_bvd1_usize, 4, bvd1(anylen(64)), usize, shl_model, single, a, k, { a <<= k; a });
+h_shift_own!(c05_t_shr_bvd1_usize, 4, bvd1(anylen(64)), usize, shr_model, single, a, k, { a >>= k; a });
+h_shift_own!(c05_t_shl_bvd3_u8, 8, bvd3(anylen(192)), u8, shl_model, multi, a, k, { a <<= k; a });
+h_shift_own!(c05_t_shr_bvd3_u8, 8, bvd3(anylen(192)), u8, shr_model, multi, a, k, { a >>= k; a });
+h_shift_own!(c05_t_shl_bvd3_u16, 8, bvd3(anylen(192)), u16, shl_model, multi, a, k, { a <<= k; a });
+h_shift_own!(c05_t_shr_bvd3_u16, 8, bvd3(anylen(192)), u16, shr_model, multi, a, k, { a >>= k; a });
+h_shift_own!(c05_t_shl_bvd3_u32, 8, bvd3(anylen(192)), u32, shl_model, multi, a, k, { a <<= k; a });
+h_shift_own!(c05_q_shl_bvd3hi_u32, 8, bvd3(lenin(129, 192)), u32, shl_model, hi, a, k, { a <<= k; a });
+h_shift_own!(c05_t_shr_bvd3_u32, 8, bvd3(anylen(192)), u32, shr_model, multi, a, k, { a >>= k; a });
+h_shift_own!(c05_t_shl_bvd3_u64, 8, bvd3(anylen(192)), u64, shl_model, multi, a, k, { a <<= k; a });
+h_shift_own!(c05_t_shr_bvd3_u64, 8, bvd3(anylen(192)), u64, shr_model, multi, a, k, { a >>= k; a });
+h_shift_own!(c05_t_shl_bvd3_u128, 8, bvd3(anylen(192)), u128, shl_model, multi, a, k, { a <<= k; a });
+h_shift_own!(c05_q_shr_bvd3_u128, 8, bvd3(anylen(192)), u128, shr_model, multi, a, k, { a >>= k; a });
+h_shift_own!(c05_t_shl_bvd3_usize, 8, bvd3(anylen(192)), usize, shl_model, multi, a, k, { a <<= k; a });
+h_shift_own!(c05_t_shr_bvd3_usize, 8, bvd3(anylen(192)), usize, shr_model, multi, a, k, { a >>= k; a });
+// owning wrapper forms: a op k (v), a op &k (vr), a op= &k (ar)
+h_shift_own!(c05_q_shlv_bvd2_u32, 6, bvd2(anylen(128)), u32, shl_model, multi, a, k, a << k);
+h_shift_own!(c05_q_shrv_bvd2_u64, 6, bvd2(anylen(128)), u64, shr_model, multi, a, k, a >> k);
+h_shift_own!(c05_q_shlvr_bvd2_u8, 6, bvd2(anylen(128)), u8, shl_model, multi, a, k, a << &k);
+h_shift_own!(c05_q_shrvr_bvd2_u16, 6, bvd2(anylen(128)), u16, shr_model, multi, a, k, a >> &k);
+h_shift_own!(c05_q_shlar_bvd2_usize, 6, bvd2(anylen(128)), usize, shl_model, multi, a, k, { a <<= &k; a });
+h_shift_own!(c05_q_shrar_bvd2_u128, 6, bvd2(anylen(128)), u128, shr_model, multi, a, k, { a >>= &k; a });
+h_shift_own!(c05_t_shlv_bvd2_u128, 6, bvd2(anylen(128)), u128, shl_model, multi, a, k, a << k);
+h_shift_own!(c05_t_shlv_bvd2_u8, 6, bvd2(anylen(128)), u8, shl_model, multi, a, k, a << k);
+h_shift_own!(c05_t_shrv_bvd2_usize, 6, bvd2(anylen(128)), usize, shr_model, multi, a, k, a >> k);
+h_shift_own!(c05_t_shrv_bvd2_u16, 6, bvd2(anylen(128)), u16, shr_model, multi, a, k, a >> k);
+h_shift_own!(c05_t_shlvr_bvd2_u64, 6, bvd2(anylen(128)), u64, shl_model, multi, a, k, a << &k);
+h_shift_own!(c05_t_shlvr_bvd2_u16, 6, bvd2(anylen(128)), u16, shl_model, multi, a, k, a << &k);
+h_shift_own!(c05_t_shrvr_bvd2_u32, 6, bvd2(anylen(128)), u32, shr_model, multi, a, k, a >> &k);
+h_shift_own!(c05_t_shrvr_bvd2_u128, 6, bvd2(anylen(128)), u128, shr_model, multi, a, k, a >> &k);
+h_shift_own!(c05_t_shlar_bvd2_u8, 6, bvd2(anylen(128)), u8, shl_model, multi, a, k, { a <<= &k; a });
+h_shift_own!(c05_t_shlar_bvd2_u32, 6, bvd2(anylen(128)), u32, shl_model, multi, a, k, { a <<= &k; a });
+h_shift_own!(c05_t_shrar_bvd2_u64, 6, bvd2(anylen(128)), u64, shr_model, multi, a, k, { a >>= &k; a });
+h_shift_own!(c05_t_shrar_bvd2_usize, 6, bvd2(anylen(128)), usize, shr_model, multi, a, k, { a >>= &k; a });
+
+// ---- `&Bvd << k` / `&Bvd >> k`: a separate implementation that allocates by length (cost rule 2):
+// concrete lengths on 3 allocated words (spare words for the short ones), symbolic contents and amounts
+h_shift_ref!(c05_q_refshl_bvd3_l0_u8, 8, bvd3(0), u8, shl_model, lat, a, k, &a << k);
+h_shift_ref!(c05_q_refshr_bvd3_l0_u64, 8, bvd3(0), u64, shr_model, lat, a, k, &a >> k);
+h_shift_ref!(c05_q_refshl_bvd3_l1_u16, 8, bvd3(1), u16, shl_model, lat, a, k, &a << k);
+h_shift_ref!(c05_q_refshr_bvd3_l1_u128, 8, bvd3(1), u128, shr_model, lat, a, k, &a >> k);
+h_shift_ref!(c05_q_refshl_bvd3_l63_u32, 8, bvd3(63), u32, shl_model, lat, a, k, &a << k);
+h_shift_ref!(c05_q_refshr_bvd3_l63_usize, 8, bvd3(63), usize, shr_model, lat, a, k, &a >> k);
+h_shift_ref!(c05_q_refshl_bvd3_l64_u64, 8, bvd3(64), u64, shl_model, lat, a, k, &a << k);
+h_shift_ref!(c05_q_refshr_bvd3_l64_u8, 8, bvd3(64), u8, shr_model, lat, a, k, &a >> k);
+h_shift_ref!(c05_q_refshl_bvd3_l65_u128, 8, bvd3(65), u128, shl_model, lat, a, k, &a << k);
+h_shift_ref!(c05_q_refshr_bvd3_l65_u16, 8, bvd3(65), u16, shr_model, lat, a, k, &a >> k);
+h_shift_ref!(c05_q_refshl_bvd3_l127_usize, 8, bvd3(127), usize, shl_model, lat, a, k, &a << k);
+h_shift_ref!(c05_q_refshr_bvd3_l127_u32, 8, bvd3(127), u32, shr_model, lat, a, k, &a >> k);
+h_shift_ref!(c05_q_refshl_bvd3_l128_u8, 8, bvd3(128), u8, shl_model, lat, a, k, &a << k);
+h_shift_ref!(c05_q_refshr_bvd3_l128_u64, 8, bvd3(128), u64, shr_model, lat, a, k, &a >> k);
+h_shift_ref!(c05_q_refshl_bvd3_l129_u16, 8, bvd3(129), u16, shl_model, lat, a, k, &a << k);
+h_shift_ref!(c05_q_refshr_bvd3_l129_u128, 8, bvd3(129), u128, shr_model, lat, a, k, &a >> k);
+h_shift_ref!(c05_q_refshl_bvd3_l191_u32, 8, bvd3(191), u32, shl_model, lat, a, k, &a << k);
+h_shift_ref!(c05_q_refshr_bvd3_l191_usize, 8, bvd3(191), usize, shr_model, lat, a, k, &a >> k);
+h_shift_ref!(c05_q_refshl_bvd3_l192_u64, 8, bvd3(192), u64, shl_model, lat, a, k, &a << k);
+h_shift_ref!(c05_q_refshr_bvd3_l192_u8, 8, bvd3(192), u8, shr_model, lat, a, k, &a >> k);
+h_shift_ref!(c05_q_refshlr_bvd3_l65_u64, 8, bvd3(65), u64, shl_model, lat, a, k, &a << &k);
+h_shift_ref!(c05_q_refshrr_bvd3_l128_u8, 8, bvd3(128), u8, shr_model, lat, a, k, &a >> &k);
+// thorough: more lengths on 2 allocated words, and a symbolic length on one word
+h_shift_ref!(c05_t_refshl_bvd2_l2_u32, 6, bvd2(2), u32, shl_model, lat, a, k, &a << k);
+h_shift_ref!(c05_t_refshr_bvd2_l2_usize, 6, bvd2(2), usize, shr_model, lat, a, k, &a >> k);
+h_shift_ref!(c05_t_refshl_bvd2_l8_u64, 6, bvd2(8), u64, shl_model, lat, a, k, &a << k);
+h_shift_ref!(c05_t_refshr_bvd2_l8_u8, 6, bvd2(8), u8, shr_model, lat, a, k, &a >> k);
+h_shift_ref!(c05_t_refshl_bvd2_l33_u128, 6, bvd2(33), u128, shl_model, lat, a, k, &a << k);
+h_shift_ref!(c05_t_refshr_bvd2_l33_u16, 6, bvd2(33), u16, shr_model, lat, a, k, &a >> k);
+h_shift_ref!(c05_t_refshl_bvd2_l62_usize, 6, bvd2(62), usize, shl_model, lat, a, k, &a << k);
+h_shift_ref!(c05_t_refshr_bvd2_l62_u32, 6, bvd2(62), u32, shr_model, lat, a, k, &a >> k);
+h_shift_ref!(c05_t_refshl_bvd2_l66_u8, 6, bvd2(66), u8, shl_model, lat, a, k, &a << k);
+h_shift_ref!(c05_t_refshr_bvd2_l66_u64, 6, bvd2(66), u64, shr_model, lat, a, k, &a >> k);
+h_shift_ref!(c05_t_refshl_bvd2_l100_u16, 6, bvd2(100), u16, shl_model, lat, a, k, &a << k);
+h_shift_ref!(c05_t_refshr_bvd2_l100_u128, 6, bvd2(100), u128, shr_model, lat, a, k, &a >> k);
+h_shift_ref!(c05_t_refshl_bvd2_l126_u32, 6, bvd2(126), u32, shl_model, lat, a, k, &a << k);
+h_shift_ref!(c05_t_refshr_bvd2_l126_usize, 6, bvd2(126), usize, shr_model, lat, a, k, &a >> k);
+h_shift_ref!(c05_t_refshl_bvd2_l128_u64, 6, bvd2(128), u64, shl_model, lat, a, k, &a << k);
+h_shift_ref!(c05_t_refshr_bvd2_l128_u8, 6, bvd2(128), u8, shr_model, lat, a, k, &a >> k);
+h_shift_ref!(c05_t_refshl_bvd1_u8, 4, bvd1(anylen(64)), u8, shl_model, single, a, k, &a << k);
+h_shift_ref!(c05_t_refshr_bvd1_u8, 4, bvd1(anylen(64)), u8, shr_model, single, a, k, &a >> k);
+
+// ---- Bv, inline and heap mode -----------------------------------------------------------------
+h_shift_own!(c05_q_shl_bvfix_u128, 6, bvfix(anylen(128)), u128, shl_model, multi, a, k, { a <<= k; a });
+h_shift_own!(c05_q_shr_bvfix_u8, 6, bvfix(anylen(128)), u8, shr_model, multi, a, k, { a >>= k; a });
+h_shift_own!(c05_q_shl_bvdyn2_u64, 6, bvdyn2(anylen(128)), u64, shl_model, multi, a, k, { a <<= k; a });
+h_shift_own!(c05_q_shr_bvdyn2_u32, 6, bvdyn2(anylen(128)), u32, shr_model, multi, a, k, { a >>= k; a });
+h_shift_ref!(c05_q_refshr_bvfix_u16, 6, bvfix(anylen(128)), u16, shr_model, multi, a, k, &a >> k);
+h_shift_ref!(c05_q_refshl_bvdyn2_usize, 6, bvdyn2(anylen(128)), usize, shl_model, multi, a, k, &a << k);
+h_shift_own!(c05_t_shlv_bvfix_u32, 6, bvfix(anylen(128)), u32, shl_model, multi, a, k, a << k);
+h_shift_own!(c05_t_shrvr_bvfix_u64, 6, bvfix(anylen(128)), u64, shr_model, multi, a, k, a >> &k);
+h_shift_own!(c05_t_shlar_bvfix_u16, 6, bvfix(anylen(128)), u16, shl_model, multi, a, k, { a <<= &k; a });
+h_shift_own!(c05_t_shrv_bvdyn2_u128, 6, bvdyn2(anylen(128)), u128, shr_model, multi, a, k, a >> k);
+h_shift_own!(c05_t_shlvr_bvdyn2_u8, 6, bvdyn2(anylen(128)), u8, shl_model, multi, a, k, a << &k);
+h_shift_own!(c05_t_shrar_bvdyn2_usize, 6, bvdyn2(anylen(128)), usize, shr_model, multi, a, k, { a >>= &k; a });
+h_shift_ref!(c05_t_refshlr_bvfix_u128, 6, bvfix(anylen(128)), u128, shl_model, multi, a, k, &a << &k);
+h_shift_ref!(c05_t_refshrr_bvdyn2_u64, 6, bvdyn2(anylen(128)), u64, shr_model, multi, a, k, &a >> &k);
+h_shift_own!(c05_t_shl_bvdyn1_u128, 4, bvdyn1(anylen(64)), u128, shl_model, single, a, k, { a <<= k; a });
+h_shift_own!(c05_t_shr_bvdyn3_u128, 8, bvdyn3(anylen(192)), u128, shr_model, multi, a, k, { a >>= k; a });
+
+// ---- shl_in / shr_in ----------------------------------------------------------------------------
+h_shin_f!(c05_q_shin_f8x1, 3, f8x1(anylen(8)));
+h_shin_f!(c05_q_shin_f8x2, 4, f8x2(anylen(16)));
+h_shin_f!(c05_q_shin_f8x3, 5, f8x3(anylen(24)));
+h_shin_f!(c05_q_shin_f16x2, 4, f16x2(anylen(32)));
+h_shin_f!(c05_q_shin_f64x1, 3, f64x1(anylen(64)));
+h_shin_f!(c05_q_shin_f64x2, 4, f64x2(anylen(128)));
+h_shin_f!(c05_t_shin_f8x4, 6, f8x4(anylen(32)));
+h_shin_f!(c05_t_shin_f32x2, 4, f32x2(anylen(64)));
+h_shin_f!(c05_t_shin_fuszx2, 4, fuszx2(anylen(128)));
+h_shin_f!(c05_t_shin_f64x3, 5, f64x3(anylen(192)));
+h_shin_f!(c05_t_shin_f128x2, 4, f128x2(anylen(256)));
+h_shlin_d!(c05_q_shlin_bvd1, 3, bvd1(anylen(64)));
+h_shrin_d!(c05_q_shrin_bvd1, 3, bvd1(anylen(64)));
+h_shlin_d!(c05_q_shlin_bvd2, 4, bvd2(anylen(128)));
+h_shrin_d!(c05_q_shrin_bvd2, 4, bvd2(anylen(128)));
+h_shlin_d!(c05_q_shlin_bvd3, 5, bvd3(anylen(192)));
+h_shrin_d!(c05_q_shrin_bvd3, 5, bvd3(anylen(192)));
+h_shlin_d!(c05_q_shlin_bvfix, 4, bvfix(anylen(128)));
+h_shrin_d!(c05_q_shrin_bvfix, 4, bvfix(anylen(128)));
+h_shlin_d!(c05_q_shlin_bvdyn2, 4, bvdyn2(anylen(128)));
+h_shrin_d!(c05_q_shrin_bvdyn2, 4, bvdyn2(anylen(128)));
+h_shlin_d!(c05_t_shlin_bvd4, 6, bvd4(anylen(256)));
+h_shrin_d!(c05_t_shrin_bvd4, 6, bvd4(anylen(256)));
+h_shlin_d!(c05_t_shlin_bvdyn3, 5, bvdyn3(anylen(192)));
+h_shrin_d!(c05_t_shrin_bvdyn3, 5, bvdyn3(anylen(192)));
+
+/// The empty `Bvd` without any storage word.
+harness!(c05_q_bvd0, 2, {
+    let (mut a, ra) = bvd0(0);
+    let k = nd::u128();
+    let b = nd::bool();
+    let bit = if b { Bit::One } else { Bit::Zero };
+    w!(k > u64::MAX as u128, "amount above usize::MAX");
+    let sel = nd::upto(5);
+    if sel == 0 {
+        a <<= k;
+    } else if sel == 1 {
+        a >>= k;
+    } else if sel == 2 {
+        a = &a << k;
+    } else if sel == 3 {
+        a = &a >> k;
+    } else if sel == 4 {
+        assert!((a.shl_in(bit) == Bit::One) == b, "C05: shl_in on the empty vector did not return the supplied bit");
+    } else {
+        assert!((a.shr_in(bit) == Bit::One) == b, "C05: shr_in on the empty vector did not return the supplied bit");
+    }
+    assert!(a.into_raw() == ra, "C05: shifting the empty vector changed it");
+});
